@@ -203,6 +203,7 @@ type Result struct {
 
 	Invocations []*Invocation
 	FaultsFired map[string]int
+	FaultHits   map[int]int // index into Config.Faults -> times it fired
 	IOOps       int
 	SimTime     time.Duration
 	Probes      map[string]int
